@@ -955,10 +955,10 @@ func c10Run(t *testing.T, kind string, quick, thorough int) {
 	})
 }
 
-func TestVerif_C10_table(t *testing.T)    { c10Run(t, "table", 3, 10) }
-func TestVerif_C10_archive(t *testing.T)  { c10Run(t, "archive", 2, 8) }
-func TestVerif_C10_manifest(t *testing.T) { c10Run(t, "manifest", 3, 12) }
-func TestVerif_C10_journal(t *testing.T)  { c10Run(t, "journal", 2, 8) }
+func TestVerif_C10_table(t *testing.T)    { c10Run(t, "table", 3, 3) }
+func TestVerif_C10_archive(t *testing.T)  { c10Run(t, "archive", 2, 3) }
+func TestVerif_C10_manifest(t *testing.T) { c10Run(t, "manifest", 3, 6) }
+func TestVerif_C10_journal(t *testing.T)  { c10Run(t, "journal", 2, 1) }
 
 func mkdir(rt *rapid.T, base, name string) string {
 	d := filepath.Join(base, name)
